@@ -738,6 +738,13 @@ func (t *taintEngine) comparisonBlocks(fn *ssa.Function, g map[ssa.Value]bool, k
 			switch bo.Op {
 			case token.LSS, token.LEQ, token.GTR, token.GEQ:
 				if kind == "alloc" {
+					// a comparison with zero or a negative constant says the size is not negative: no upper bound
+					if k, isK := constInt(bo.Y); isK && k <= 0 {
+						continue
+					}
+					if k, isK := constInt(bo.X); isK && k <= 0 {
+						continue
+					}
 					// "fits in 32 bits" is no bound on an allocation
 					if k, isK := constInt(bo.Y); isK && k >= 1<<30 {
 						continue
@@ -1338,6 +1345,48 @@ func condCompares(cond ssa.Value) []*ssa.BinOp {
 		return []*ssa.BinOp{bo}
 	}
 	var out []*ssa.BinOp
+	// the test given a name: `if !plausible(n)` with `func plausible(n int64) bool { return n >= 0 && n <= max }`
+	// stands for the comparisons its result is made of, with the arguments in place of the parameters
+	if call, ok := cond.(*ssa.Call); ok {
+		h := call.Call.StaticCallee()
+		if h == nil || len(h.Blocks) == 0 || len(h.Blocks) > 16 || h.Signature.Results().Len() != 1 || !isBool(h.Signature.Results().At(0).Type()) {
+			return nil
+		}
+		subst := func(v ssa.Value) ssa.Value {
+			if pa, ok := stripConv(v).(*ssa.Parameter); ok {
+				for i, hp := range h.Params {
+					if hp == pa && i < len(call.Call.Args) {
+						return call.Call.Args[i]
+					}
+				}
+			}
+			return v
+		}
+		var inner []*ssa.BinOp
+		for _, r := range returnsOf(h) {
+			rv := retVal(r, 0)
+			if _, isCall := rv.(*ssa.Call); isCall {
+				continue
+			}
+			inner = append(inner, condCompares(rv)...)
+		}
+		// `a && b` returns a merge whose leaves are b alone; a is the branch that leads there
+		for _, hb := range h.Blocks {
+			if ifi, ok := hb.Instrs[len(hb.Instrs)-1].(*ssa.If); ok {
+				if _, isCall := ifi.Cond.(*ssa.Call); !isCall {
+					inner = append(inner, condCompares(ifi.Cond)...)
+				}
+			}
+		}
+		seenBo := map[*ssa.BinOp]bool{}
+		for _, bo := range inner {
+			if !seenBo[bo] {
+				seenBo[bo] = true
+				out = append(out, &ssa.BinOp{Op: bo.Op, X: subst(bo.X), Y: subst(bo.Y)})
+			}
+		}
+		return out
+	}
 	if _, ok := cond.(*ssa.Phi); ok {
 		seen := map[*ssa.BinOp]bool{}
 		for _, truth := range []bool{true, false} {
